@@ -164,4 +164,4 @@ pub fn cells(tier: Tier) -> Vec<CellPlan> {
     v
 }
 
-pub const RULE: &str = "all sequences of emissions (7 server kinds x 3 send modes, 5 client kinds) and connect/disconnect operations over <= r rounds x tick/no-tick x per-channel hold / reverse / drop schedules with <= d deviations, on real Apps with 1-3 clients; reference model = intended-recipient set fixed at emission; non-trivial = at least one event emitted and one observed; distinct = distinct delivery multisets";
+pub const RULE: &str = "all sequences of emissions (7 server kinds x 3 send modes, 5 client kinds) and connect/disconnect operations over <= r rounds x tick/no-tick x per-channel hold / reverse / drop schedules with <= d deviations, on real Apps with 1-3 clients (also three clients authorized one by one in any order under custom authorization); reference model = intended-recipient set fixed at emission; non-trivial = at least one event emitted and one observed; distinct = distinct delivery multisets";
